@@ -8,6 +8,7 @@ from .. import grammar, values, engine
 from ..world import find_method
 
 ID = "C09"
+UNKNOWN_REPLY_FIELDS = True      # REST replies of a NEWER server (a field this client does not know) must decode all the same
 TOL = 2e-5   # api-core derives per-attempt timeouts through datetime (microsecond resolution)
 
 PROFILE = grammar.profile(
